@@ -48,13 +48,14 @@ fn run(line: &str) -> String {
     let a = &t[1..];
     match t[0] {
         // the constant-time test pipeline: keygen + sign with CTEST = true; the secret is the RNG output
+        // (an `Err` is traced like any other outcome: a path that bails out on some RNG outputs shows as a shorter trace)
         "t.dudect" => {
             let mut rng = Fixed { bytes: hex(a[2]), pos: 0 };
             let msg = hex(a[1]);
             match a[0] {
-                "44" => traced(|| fold(&fips204::ml_dsa_44::dudect_keygen_sign_with_rng(&mut rng, &msg).unwrap())),
-                "65" => traced(|| fold(&fips204::ml_dsa_65::dudect_keygen_sign_with_rng(&mut rng, &msg).unwrap())),
-                _ => traced(|| fold(&fips204::ml_dsa_87::dudect_keygen_sign_with_rng(&mut rng, &msg).unwrap())),
+                "44" => traced(|| fips204::ml_dsa_44::dudect_keygen_sign_with_rng(&mut rng, &msg).map(|s| fold(&s)).unwrap_or(0xE44)),
+                "65" => traced(|| fips204::ml_dsa_65::dudect_keygen_sign_with_rng(&mut rng, &msg).map(|s| fold(&s)).unwrap_or(0xE44)),
+                _ => traced(|| fips204::ml_dsa_87::dudect_keygen_sign_with_rng(&mut rng, &msg).map(|s| fold(&s)).unwrap_or(0xE44)),
             }
         }
         // sensitivity control: the normal pipeline (rejection sampling on) must *differ* between seeds
